@@ -74,7 +74,7 @@ CLAIMS = {
              'sweeps every attribute of the fitted networks; a value cached on demand is '
              'invalidated by every write to what it was computed from (serial and pool path).  '
              'Bit-identity itself is not decided.',
-        ref='DESIGN.md section 4 C05 and 10, rules P0 P1 P2 P4 P5 P6 P8 P9 P11 P12 K2 F3 F4', note=TRUST +
+        ref='DESIGN.md section 4 C05 and 10, rules P0 P1 P2 P4 P5 P6 P8 P9 P11 P12 P14 K2 F3 F4', note=TRUST +
         ' h5py round-trips values exactly; sklearn training is deterministic given its seed.'),
     'C06': dict(
         technique='typestate analysis on per-function CFGs (atomic-replace protocol), path '
